@@ -42,5 +42,9 @@ M_pp1 == <<<<"psend", 1>>, <<"poll">>, <<"psend", 2>>, <<"poll">>, <<"pdrop">>>>
 M_pp2 == <<<<"poll">>, <<"pdrop">>, <<"poll">>>>
 M_pp3 == <<<<"psend", 1>>, <<"psend", 2>>, <<"poll">>, <<"pdrop">>>>
 NoWakers == << >>
-WB_far == (1 :> 4097)     \* the channel's / piped thread's Waker sits in the second bitmap
+WB_far == (1 :> 4097)
+WB_two == (10 :> 10) @@ (262154 :> 262154)   \* two bitmaps announced through the same poll-waker slot
+S_w2d == (1 :> <<<<"wake", 10>>>>) @@ (2 :> <<<<"wake", 262154>>, <<"wake", 262154>>>>)
+WB_ctl == (7 :> 1) @@ (1 :> 2)               \* control Waker (slab index 1) + the channel's Waker (index 2)
+S_ctl == (1 :> <<<<"send", 1>>, <<"send", 2>>>>) @@ (2 :> <<<<"wakectl">>>>)     \* the channel's / piped thread's Waker sits in the second bitmap
 =============================================================================
